@@ -3,16 +3,19 @@
    empty, a full and an expired cache, for sync and async caches. *)
 EXTENDS Conc
 
-CONSTANTS Flavs, Pols, Limits, Ttls, MaxOps, NThreads
+CONSTANTS Flavs, Pols, Limits, Ttls, Maxmems, MaxOps, NThreads
 
-Cfgs == { [flavour |-> f, policy |-> p, limit |-> l, ttl |-> t, maxmem |-> 0, w |-> "none"] :
-            f \in Flavs, p \in Pols, l \in Limits, t \in Ttls }
+Cfgs == { [flavour |-> f, policy |-> p, limit |-> l, ttl |-> t, maxmem |-> m, w |-> "none"] :
+            f \in Flavs, p \in Pols, l \in Limits, t \in Ttls, m \in Maxmems }
 
-Alphabet == { [op |-> "call", k |-> "k1"], [op |-> "call", k |-> "k2"], [op |-> "call", k |-> "k3"],
+Alphabet(cf) ==
+  (IF cf.maxmem = 0 THEN {[op |-> "call", k |-> "k2"], [op |-> "call", k |-> "k3"]}
+   ELSE {[op |-> "call", k |-> "k2", size |-> 2], [op |-> "call", k |-> "k3", size |-> 4]})
+  \cup     { [op |-> "call", k |-> "k1"],
               [op |-> "inv_with", sel |-> {"k1"}, naux |-> 1], [op |-> "inv_with", sel |-> {"k1", "k2", "k3"}, naux |-> 1],
               [op |-> "clear", naux |-> 1], [op |-> "callx", k |-> "k1"] }
 
-Progs == UNION { [1..n -> Alphabet] : n \in 1..MaxOps }
+Progs(cf) == UNION { [1..n -> Alphabet(cf)] : n \in 1..MaxOps }
 
 E(v, age) == [val |-> v, hits |-> 0, age |-> age, size |-> 1]
 
@@ -28,7 +31,7 @@ Init ==
   /\ c \in Starts(cfg)
   /\ c0 = c
   /\ ver = 10
-  /\ prog \in [1..NThreads -> Progs]
+  /\ prog \in [1..NThreads -> Progs(cfg)]
   /\ pc = [t \in 1..NThreads |-> PC0]
   /\ mapL = 0 /\ orderL = 0
   /\ res = [t \in 1..NThreads |-> <<>>]
